@@ -325,12 +325,15 @@ class kMinPathError(pathmodel.AbstractPathModelDAG):
             var_type="integer" if self.weight_type == int else "continuous",
         )
         
+        # A slack may have to exceed w_max when a path length factor is below 1 (slack * factor must reach the error),
+        # and the scaled slack may exceed it when a factor is above 1
+        slack_ub, scaled_slack_ub = self._get_slack_upper_bounds()
         # path slacks
         self.path_slacks_vars = self.solver.add_variables(
             self.path_indexes,
             name_prefix="slack",
             lb=0,
-            ub=self.w_max,
+            ub=slack_ub,
             var_type="integer" if self.weight_type == int else "continuous",
         )
         
@@ -338,7 +341,7 @@ class kMinPathError(pathmodel.AbstractPathModelDAG):
         # We will encode that edge_vars[(u,v,i)] * self.path_slacks_vars[(i)] = self.gamma_vars[(u,v,i)],
         # assuming self.w_max is a bound for self.path_slacks_vars[(i)]
         # gamma = x * (scaled) slack: with path length factors the scaled slack can reach w_max * max(factors)
-        gamma_ub = self.w_max * max([1] + list(self.path_length_factors))
+        gamma_ub = scaled_slack_ub
         self.gamma_vars = self.solver.add_variables(
             self.edge_indexes,
             name_prefix="gamma",
@@ -373,7 +376,7 @@ class kMinPathError(pathmodel.AbstractPathModelDAG):
                 self.path_indexes,
                 name_prefix="scaled_slack",
                 lb=0,
-                ub=self.w_max * max(self.path_length_factors),
+                ub=scaled_slack_ub,
                 var_type="continuous",
             )
 
@@ -384,7 +387,7 @@ class kMinPathError(pathmodel.AbstractPathModelDAG):
                     continuous_var=self.slack_factors_vars[i],
                     product_var=self.scaled_slack_vars[i],
                     lb=0,
-                    ub=self.w_max * max(self.path_length_factors),
+                    ub=scaled_slack_ub,
                     name=f"scaled_slack_i{i}",
                 )
                         
@@ -472,12 +475,15 @@ class kMinPathError(pathmodel.AbstractPathModelDAG):
             raise ValueError(f"solution_weights_superset is not allowed when allow_empty_paths is False")
 
 
+        # A slack may have to exceed w_max when a path length factor is below 1 (slack * factor must reach the error),
+        # and the scaled slack may exceed it when a factor is above 1
+        slack_ub, scaled_slack_ub = self._get_slack_upper_bounds()
         # path slacks
         self.path_slacks_vars = self.solver.add_variables(
             self.path_indexes,
             name_prefix="slack",
             lb=0,
-            ub=self.w_max,
+            ub=slack_ub,
             var_type="integer" if self.weight_type == int else "continuous",
         )
         
@@ -485,7 +491,7 @@ class kMinPathError(pathmodel.AbstractPathModelDAG):
         # We will encode that edge_vars[(u,v,i)] * self.path_slacks_vars[(i)] = self.gamma_vars[(u,v,i)],
         # assuming self.w_max is a bound for self.path_slacks_vars[(i)]
         # gamma = x * (scaled) slack: with path length factors the scaled slack can reach w_max * max(factors)
-        gamma_ub = self.w_max * max([1] + list(self.path_length_factors))
+        gamma_ub = scaled_slack_ub
         self.gamma_vars = self.solver.add_variables(
             self.edge_indexes,
             name_prefix="gamma",
@@ -520,7 +526,7 @@ class kMinPathError(pathmodel.AbstractPathModelDAG):
                 self.path_indexes,
                 name_prefix="scaled_slack",
                 lb=0,
-                ub=self.w_max * max(self.path_length_factors),
+                ub=scaled_slack_ub,
                 var_type="continuous",
             )
 
@@ -531,7 +537,7 @@ class kMinPathError(pathmodel.AbstractPathModelDAG):
                     continuous_var=self.slack_factors_vars[i],
                     product_var=self.scaled_slack_vars[i],
                     lb=0,
-                    ub=self.w_max * max(self.path_length_factors),
+                    ub=scaled_slack_ub,
                     name=f"scaled_slack_i{i}",
                 )
                         
@@ -591,6 +597,17 @@ class kMinPathError(pathmodel.AbstractPathModelDAG):
         self.solver.set_objective(
             self.solver.quicksum(self.path_slacks_vars[(i)] for i in range(self.k)), sense="minimize"
         )
+
+    def _get_slack_upper_bounds(self):
+        """
+        Upper bounds for a path slack and for its length-scaled value.
+        """
+        positive_factors = [factor for factor in self.path_length_factors if factor > 0]
+        slack_ub = self.w_max / min([1] + positive_factors)
+        if self.weight_type == int:
+            slack_ub = int(slack_ub) + (0 if slack_ub == int(slack_ub) else 1)
+        scaled_slack_ub = slack_ub * max([1] + list(self.path_length_factors))
+        return slack_ub, scaled_slack_ub
 
     def _remove_empty_paths(self, solution):
         """
